@@ -14,10 +14,12 @@ Section Proofs.
 
   Definition all_rels (F : facts) : rel := f_field F ++ f_variant F ++ f_type F.
 
-  (* Datalog semantics of the six rules: the least set closed under them that contains E0 *)
+  (* Datalog semantics of the eight rules: the least set closed under them that contains E0 *)
   Inductive derivable (F : facts) (E0 : rel) : A * A -> Prop :=
   | d_old e : In e E0 -> derivable F E0 e
   | d_unit r : In r (f_root F) -> In r (f_unit F) -> derivable F E0 (r, r)
+  | d_leaf_root r : In r (f_root F) -> In r (f_leaf F) -> derivable F E0 (r, r)
+  | d_leaf a x : derivable F E0 (a, x) -> In x (f_leaf F) -> derivable F E0 (x, x)
   | d_root_field r c : In r (f_root F) -> In (r, c) (f_field F) -> derivable F E0 (r, c)
   | d_root_variant r c : In r (f_root F) -> In (r, c) (f_variant F) -> derivable F E0 (r, c)
   | d_step a x c : derivable F E0 (a, x) -> In (x, c) (all_rels F) -> derivable F E0 (x, c).
@@ -54,33 +56,41 @@ Section Proofs.
   Lemma init_In F e :
     In e (init eqb F) <->
     exists r, In r (f_root F) /\
-      ((e = (r, r) /\ In r (f_unit F)) \/
+      ((e = (r, r) /\ (In r (f_unit F) \/ In r (f_leaf F))) \/
        (exists c, e = (r, c) /\ (In (r, c) (f_field F) \/ In (r, c) (f_variant F)))).
   Proof.
     unfold init. rewrite in_flat_map. split.
     - intros [r [Hr He]]. exists r. split; [assumption|].
       rewrite !in_app_iff in He. destruct He as [He | [He | He]].
-      + destruct (mem eqb r (f_unit F)) eqn:Hm; [|contradiction].
-        destruct He as [He|[]]. left. split; [congruence|]. apply mem_In. assumption.
+      + destruct (mem eqb r (f_unit F) || mem eqb r (f_leaf F)) eqn:Hm; [|contradiction].
+        destruct He as [He|[]]. left. split; [congruence|].
+        apply orb_true_iff in Hm as [Hm|Hm]; [left | right]; apply mem_In; assumption.
       + apply in_map_iff in He as [c [Hc Hin]]. right. exists c. split; [congruence|].
         left. apply succs_In. assumption.
       + apply in_map_iff in He as [c [Hc Hin]]. right. exists c. split; [congruence|].
         right. apply succs_In. assumption.
     - intros [r [Hr H]]. exists r. split; [assumption|]. rewrite !in_app_iff.
       destruct H as [[He Hu] | [c [He [Hf | Hv]]]]; subst.
-      + left. apply mem_In in Hu. rewrite Hu. left. reflexivity.
+      + left. assert (Hm : mem eqb r (f_unit F) || mem eqb r (f_leaf F) = true)
+          by (apply orb_true_iff; destruct Hu as [Hu|Hu]; [left | right]; apply mem_In; exact Hu).
+        rewrite Hm. left. reflexivity.
       + right. left. apply in_map. apply succs_In. assumption.
       + right. right. apply in_map. apply succs_In. assumption.
   Qed.
 
   Lemma derive1_In F E e :
-    In e (derive1 eqb F E) <-> exists a x c, In (a, x) E /\ In (x, c) (all_rels F) /\ e = (x, c).
+    In e (derive1 eqb F E) <->
+    exists a x, In (a, x) E /\ ((In x (f_leaf F) /\ e = (x, x)) \/ exists c, In (x, c) (all_rels F) /\ e = (x, c)).
   Proof.
     unfold derive1. rewrite in_flat_map. split.
-    - intros [[a x] [Hin He]]. cbn [snd] in He. apply in_map_iff in He as [c [Hc Hs]].
-      exists a, x, c. split; [assumption|]. split; [|congruence]. apply succs_In in Hs. exact Hs.
-    - intros [a [x [c [Hin [Hr He]]]]]. exists (a, x). split; [assumption|]. cbn [snd]. subst.
-      apply in_map. apply succs_In. exact Hr.
+    - intros [[a x] [Hin He]]. cbn [snd] in He. exists a, x. split; [assumption|].
+      apply in_app_iff in He as [He|He].
+      + destruct (mem eqb x (f_leaf F)) eqn:Hm; [|contradiction]. destruct He as [He|[]].
+        left. split; [apply mem_In; exact Hm | congruence].
+      + apply in_map_iff in He as [c [Hc Hs]]. right. exists c. split; [|congruence]. apply succs_In in Hs. exact Hs.
+    - intros [a [x [Hin [[Hl He] | [c [Hr He]]]]]]; exists (a, x); (split; [assumption|]); cbn [snd]; subst; apply in_or_app.
+      + left. apply mem_In in Hl. rewrite Hl. left. reflexivity.
+      + right. apply in_map. apply succs_In. exact Hr.
   Qed.
 
   Lemma add_new_shape new : forall E,
@@ -131,8 +141,9 @@ Section Proofs.
       + destruct Hit as [H1 [H2 H3]]. split; [|split; assumption].
         intros e He. apply H1. apply add_new_In. left. exact He.
       + intros e He. apply add_new_In in He as [He|He]; [apply Hinv; exact He|].
-        apply derive1_In in He as [a [x [c [Hin [Hr He]]]]]. subst.
-        eapply d_step; [apply Hinv; exact Hin | exact Hr].
+        apply derive1_In in He as [a [x [Hin [[Hl He] | [c [Hr He]]]]]]; subst.
+        * eapply d_leaf; [apply Hinv; exact Hin | exact Hl].
+        * eapply d_step; [apply Hinv; exact Hin | exact Hr].
   Qed.
 
   Theorem closure_spec F E0 fuel R :
@@ -141,15 +152,18 @@ Section Proofs.
     unfold closure. intros Hc.
     apply (iterate_spec F E0) in Hc.
     - destruct Hc as [Hsub [Hsound Hclosed]]. intros e. split; [apply Hsound|].
-      intros Hd. induction Hd as [e He | r Hr Hu | r c Hr Hf | r c Hr Hv | a x c Hd IH Hrel].
+      intros Hd. induction Hd as [e He | r Hr Hu | r Hr Hu | a x Hd IH Hl | r c Hr Hf | r c Hr Hv | a x c Hd IH Hrel].
       + apply Hsub. apply add_new_In. left. exact He.
-      + apply Hsub. apply add_new_In. right. apply init_In. exists r. split; [exact Hr|]. left. split; [reflexivity | exact Hu].
+      + apply Hsub. apply add_new_In. right. apply init_In. exists r. split; [exact Hr|]. left. split; [reflexivity | left; exact Hu].
+      + apply Hsub. apply add_new_In. right. apply init_In. exists r. split; [exact Hr|]. left. split; [reflexivity | right; exact Hu].
+      + apply Hclosed. apply derive1_In. exists a, x. split; [exact IH|]. left. split; [exact Hl | reflexivity].
       + apply Hsub. apply add_new_In. right. apply init_In. exists r. split; [exact Hr|]. right. exists c. split; [reflexivity|]. left. exact Hf.
       + apply Hsub. apply add_new_In. right. apply init_In. exists r. split; [exact Hr|]. right. exists c. split; [reflexivity|]. right. exact Hv.
-      + apply Hclosed. apply derive1_In. exists a, x, c. split; [exact IH|]. split; [exact Hrel | reflexivity].
+      + apply Hclosed. apply derive1_In. exists a, x. split; [exact IH|]. right. exists c. split; [exact Hrel | reflexivity].
     - intros e He. apply add_new_In in He as [He|He]; [apply d_old; exact He|].
-      apply init_In in He as [r [Hr [[He Hu] | [c [He [Hf|Hv]]]]]]; subst.
+      apply init_In in He as [r [Hr [[He [Hu|Hu]] | [c [He [Hf|Hv]]]]]]; subst.
       + apply d_unit; assumption.
+      + apply d_leaf_root; assumption.
       + apply d_root_field; assumption.
       + apply d_root_variant; assumption.
   Qed.
@@ -160,6 +174,7 @@ Section Proofs.
   Record facts_equiv (F G : facts) : Prop := {
     fe_root : same_set (f_root F) (f_root G);
     fe_unit : same_set (f_unit F) (f_unit G);
+    fe_leaf : same_set (f_leaf F) (f_leaf G);
     fe_field : same_set (f_field F) (f_field G);
     fe_variant : same_set (f_variant F) (f_variant G);
     fe_type : same_set (f_type F) (f_type G);
@@ -167,19 +182,22 @@ Section Proofs.
 
   Lemma all_rels_equiv F G : facts_equiv F G -> same_set (all_rels F) (all_rels G).
   Proof.
-    intros [_ _ Hf Hv Ht] x. unfold all_rels. rewrite !in_app_iff. rewrite (Hf x), (Hv x), (Ht x). reflexivity.
+    intros [_ _ _ Hf Hv Ht] x. unfold all_rels. rewrite !in_app_iff. rewrite (Hf x), (Hv x), (Ht x). reflexivity.
   Qed.
 
   Lemma derivable_mono F G E0 E0' e :
     (forall x, In x (f_root F) -> In x (f_root G)) -> (forall x, In x (f_unit F) -> In x (f_unit G)) ->
+    (forall x, In x (f_leaf F) -> In x (f_leaf G)) ->
     (forall x, In x (f_field F) -> In x (f_field G)) -> (forall x, In x (f_variant F) -> In x (f_variant G)) ->
     (forall x, In x (f_type F) -> In x (f_type G)) ->
     (forall x, In x E0 -> derivable G E0' x) ->
     derivable F E0 e -> derivable G E0' e.
   Proof.
-    intros Hr Hu Hf Hv Ht He Hd. induction Hd as [e H | r H1 H2 | r c H1 H2 | r c H1 H2 | a x c Hd IH Hrel].
+    intros Hr Hu Hl Hf Hv Ht He Hd. induction Hd as [e H | r H1 H2 | r H1 H2 | a x Hd IH H2 | r c H1 H2 | r c H1 H2 | a x c Hd IH Hrel].
     - apply He. exact H.
     - apply d_unit; auto.
+    - apply d_leaf_root; auto.
+    - eapply d_leaf; [exact IH | auto].
     - apply d_root_field; auto.
     - apply d_root_variant; auto.
     - eapply d_step; [exact IH|]. unfold all_rels in *. rewrite !in_app_iff in *. intuition.
@@ -188,8 +206,8 @@ Section Proofs.
   Lemma derivable_equiv F G E0 E0' e :
     facts_equiv F G -> same_set E0 E0' -> derivable F E0 e <-> derivable G E0' e.
   Proof.
-    intros [Hr Hu Hf Hv Ht] HE. split; apply derivable_mono;
-      try (intros x Hx; first [apply Hr | apply Hu | apply Hf | apply Hv | apply Ht]; exact Hx);
+    intros [Hr Hu Hl Hf Hv Ht] HE. split; apply derivable_mono;
+      try (intros x Hx; first [apply Hr | apply Hu | apply Hl | apply Hf | apply Hv | apply Ht]; exact Hx);
       intros x Hx; apply d_old; apply HE; exact Hx.
   Qed.
 
@@ -230,7 +248,7 @@ Section Proofs.
 
   Lemma derivable_empty e : ~ derivable (@empty A) [] e.
   Proof.
-    intros H. induction H as [e H | r H _ | r c H _ | r c H _ | a x c _ IH _]; try contradiction; exact IH.
+    intros H. induction H as [e H | r H _ | r H _ | a x _ IH _ | r c H _ | r c H _ | a x c _ IH _]; try contradiction; exact IH.
   Qed.
 
   Theorem run_crates_spec fuel cs R :
@@ -270,6 +288,7 @@ Section Proofs.
     constructor; intros x.
     - rewrite !(big_union_In f_root) by reflexivity. split; intros [H|[c [Hc Hx]]]; try (left; exact H); right; exists c; split; try exact Hx; apply Hin; exact Hc.
     - rewrite !(big_union_In f_unit) by reflexivity. split; intros [H|[c [Hc Hx]]]; try (left; exact H); right; exists c; split; try exact Hx; apply Hin; exact Hc.
+    - rewrite !(big_union_In f_leaf) by reflexivity. split; intros [H|[c [Hc Hx]]]; try (left; exact H); right; exists c; split; try exact Hx; apply Hin; exact Hc.
     - rewrite !(big_union_In_rel f_field) by reflexivity. split; intros [H|[c [Hc Hx]]]; try (left; exact H); right; exists c; split; try exact Hx; apply Hin; exact Hc.
     - rewrite !(big_union_In_rel f_variant) by reflexivity. split; intros [H|[c [Hc Hx]]]; try (left; exact H); right; exists c; split; try exact Hx; apply Hin; exact Hc.
     - rewrite !(big_union_In_rel f_type) by reflexivity. split; intros [H|[c [Hc Hx]]]; try (left; exact H); right; exists c; split; try exact Hx; apply Hin; exact Hc.
